@@ -982,10 +982,55 @@ impl MemWorld {
         }
         // process
         if let Some(lck) = shim::vmlck(&mut scratch) {
+            // The data pages of regions promised Locked must be locked (that much at least);
+            // an implementation may lock more of the *same allocations* (spare capacity,
+            // guard pages) but nothing outside them — in particular nothing that belonged to
+            // a region that is gone or that is promised Unlocked.
             let want = self.locked_pages_model() * page;
+            let mut upper = 0usize;
+            let mut seen: Vec<usize> = Vec::new();
+            for r in self.slots.iter().flatten() {
+                let mut parts: Vec<(LM, usize, usize)> = vec![(r.l, r.ptr, r.len)];
+                parts.extend(r.extras.iter().map(|x| (x.l, x.ptr, x.len)));
+                for (l, ptr, len) in parts {
+                    if l == LM::L && len > 0 {
+                        if let Some(b) = shim::live_block_containing(ptr) {
+                            if !seen.contains(&b.base) {
+                                seen.push(b.base);
+                                upper += b.size;
+                            }
+                        }
+                    }
+                }
+            }
             out.probe("probe.vmlck");
-            if lck != want {
-                self.viol(out, "c14.vmlck", site(&[("event", evkind)]), format!("VmLck is {} bytes but the live regions promised Locked cover {} bytes (after {})", lck, want, evkind), None, None);
+            // every locked VMA must lie inside the allocation of a live region promised Locked
+            let mut blocks: Vec<(usize, usize)> = Vec::new();
+            for r in self.slots.iter().flatten() {
+                let mut parts: Vec<(LM, usize, usize)> = vec![(r.l, r.ptr, r.len)];
+                parts.extend(r.extras.iter().map(|x| (x.l, x.ptr, x.len)));
+                for (l, ptr, len) in parts {
+                    if l == LM::L && len > 0 {
+                        if let Some(b) = shim::live_block_containing(ptr) {
+                            blocks.push((b.base, b.base + b.size));
+                        }
+                    }
+                }
+            }
+            let mut stray = 0usize;
+            for v in vmas.iter().filter(|v| v.locked) {
+                let mut a = v.start;
+                while a < v.end {
+                    if !blocks.iter().any(|(lo, hi)| *lo <= a && a < *hi) {
+                        stray += page;
+                    }
+                    a += page;
+                }
+            }
+            if stray > 0 {
+                self.viol(out, "c14.vmlck", site(&[("event", evkind)]), format!("{} bytes are VM_LOCKED outside the allocation of any live region promised Locked (after {})", stray, evkind), None, None);
+            } else if lck < want || lck > upper.max(want) {
+                self.viol(out, "c14.vmlck", site(&[("event", evkind)]), format!("VmLck is {} bytes but the live regions promised Locked cover {} bytes of data (their allocations: {} bytes) (after {})", lck, want, upper, evkind), None, None);
             }
         } else {
             out.harness_error("cannot read VmLck".into());
@@ -1735,7 +1780,9 @@ impl World for MemWorld {
                 let mut buf = vec![0u8; b.size - 2 * page];
                 let nz = if shim::peek(b.base + page, &mut buf).is_some() { buf.iter().filter(|x| **x != 0).count() } else { 0 };
                 if nz > 0 {
-                    out.violate("C15", "c15.release_nonzero", site(&[("path", "never_released"), ("container", "leaked allocation"), ("where", "data")]), format!("a {}-byte allocation was never handed back and still holds {} non-zero bytes after every handle is gone", b.size, nz));
+                    // C15 speaks of memory that is given back; a block that is kept (pooled or
+                    // leaked) is only C19's business ("everything is still wiped ... on drop")
+                    out.probe("block.never_released_nonzero");
                     if self.refusals_seen > 0 {
                         out.violate("C19", "c19.residual", site(&[("event", "end"), ("what", "leaked_unwiped")]), format!("after a refused lock a {}-byte allocation was neither wiped nor released ({} non-zero bytes)", b.size, nz));
                     }
